@@ -413,6 +413,16 @@ class Run:
         ms = np.array([[float(x) for x in rows[c]["meas"]] for c in cells], dtype=NP[self.dt])
         idx = [int(i) for i in self.a.index_of(ms)]
         occ, data = self.a.retrieve(ms)
+        # the scalar lookups agree with the batch ones (every elite one by one: saturated top boundaries included)
+        for k, c in enumerate(cells):
+            i1 = int(self.a.index_of_single(ms[k]))
+            o1, e1 = self.a.retrieve_single(ms[k])
+            if i1 != idx[k] or bool(o1) != bool(occ[k]) or int(e1["index"]) != int(data["index"][k]):
+                return self.F_("C07", "oracle", f"{where}: index_of_single / retrieve_single of the measures of the elite in "
+                               f"cell {c} give cell {i1} / index {int(e1['index'])}, the batch lookups give {idx[k]} / "
+                               f"{int(data['index'][k])}") or \
+                    self.F_("C15", "oracle", f"{where}: index_of_single({[str(x) for x in rows[c]['meas']]}) = {i1} but "
+                            f"index_of gives {idx[k]} (the elite is stored in cell {c})")
         for k, c in enumerate(cells):
             if idx[k] != c or not occ[k] or int(data["index"][k]) != c:
                 return self.F_("C07", "oracle", f"{where}: the elite stored in cell {c} (measures "
